@@ -342,6 +342,39 @@ def obs(exc):
 def fmt_opt(v):
     return "N" if v is None else str(v)
 
+def deep_attr(obj, prefer, part, default=None):
+    """like named_attr, but also looks one level down into helper objects the transceiver owns (a group of attributes moved
+    into a small object of its own)"""
+    v = named_attr(obj, prefer, part, default=KeyError)
+    if v is not KeyError:
+        return v
+    for k, h in vars(obj).items():
+        if k in SKIP_ATTRS or not hasattr(h, "__dict__") or type(h).__module__ in ("builtins", "threading", "_thread", "socket", "logging", "random"):
+            continue
+        cands = [a for a in vars(h) if part == a.strip("_") or part in a]
+        exact = [a for a in cands if a.strip("_") == part]
+        pick = exact or cands
+        if len(pick) == 1:
+            return getattr(h, pick[0])
+    return default
+
+
+def hopping_of(t):
+    """the transceiver's hopping parameters object (or None), wherever it is kept"""
+    if hasattr(t, "fh"):
+        return t.fh
+    for k, h in vars(t).items():
+        if k in ("data_if", "ctrl_if", "clck_if", "clck_gen", "child_trx_list", "trx_list", "burst_fwd", "pwr_meas", "app"):
+            continue
+        if type(h).__name__ == "HoppingParams":
+            return h
+        if hasattr(h, "__dict__") and type(h).__module__ not in ("builtins", "threading", "_thread", "socket", "logging", "random"):
+            for a, v in vars(h).items():
+                if a.strip("_") == "fh" or type(v).__name__ == "HoppingParams":
+                    return v
+    return None
+
+
 def named_attr(obj, prefer, part, default=None):
     """the attribute `prefer` of the unchanged code, or - private names are not part of what the harness relies on - the one
     attribute whose name contains `part`"""
@@ -403,10 +436,11 @@ def state(app):
     parts = []
     trxs = app.trx_list.trx_list
     for t in trxs:
-        fh = "N" if t.fh is None else "%s/%s/%d" % (t.fh.hsn, t.fh.maio, len(t.fh.ma))
+        hp = hopping_of(t)
+        fh = "N" if hp is None else "%s/%s/%d" % (hp.hsn, hp.maio, len(hp.ma))
         q = queue_fns(t)
         parts.append(" ".join([
-            "R%d" % int(t.running), fmt_opt(named_attr(t, "_rx_freq", "rx_freq")), fmt_opt(named_attr(t, "_tx_freq", "tx_freq")), fh,
+            "R%d" % int(t.running), fmt_opt(deep_attr(t, "_rx_freq", "rx_freq")), fmt_opt(deep_attr(t, "_tx_freq", "tx_freq")), fh,
             "v%d" % named_attr(t.data_if, "_hdr_ver", "hdr_ver"),
             grp("m", lambda: "%d" % int(t.rf_muted)), grp("ta", lambda: "%s" % t.ta),
             grp("p", lambda: "%s/%s" % (t.tx_power_base, t.tx_att_base)),
